@@ -7,6 +7,7 @@ package webp
 
 import (
 	"bytes"
+	"encoding/binary"
 	"errors"
 	"fmt"
 	"image"
@@ -216,13 +217,29 @@ func encodeFrameForAnimation(img image.Image, isLossless bool, quality int) ([]b
 		Lossless: isLossless,
 		Quality:  float32(quality),
 		Method:   4,
+		// Alpha is always coded losslessly, as for still images.
+		AlphaCompression: -1,
+		AlphaFiltering:   -1,
+		AlphaQuality:     -1,
 	}
 	if isLossless {
 		bs, _, err := encodeLossless(img, opts)
 		return bs, err
 	}
-	bs, _, err := encodeLossy(img, opts)
-	return bs, err
+	bs, alphaData, _, err := encodeLossyWithAlpha(img, opts)
+	if err != nil || len(alphaData) == 0 {
+		return bs, err
+	}
+	// The muxer takes a frame's alpha plane as an ALPH chunk in front of the
+	// VP8 bitstream and turns it into an ALPH sub-chunk of the frame.
+	frame := make([]byte, 0, container.ChunkHeaderSize+len(alphaData)+1+len(bs))
+	frame = binary.LittleEndian.AppendUint32(frame, container.FourCCALPH)
+	frame = binary.LittleEndian.AppendUint32(frame, uint32(len(alphaData)))
+	frame = append(frame, alphaData...)
+	if len(alphaData)%2 != 0 {
+		frame = append(frame, 0)
+	}
+	return append(frame, bs...), nil
 }
 
 // simpleEncodeForAnimation encodes an image as a complete simple (non-animated)
